@@ -870,6 +870,194 @@ func (w *world) ntCount(t *tr.W, chain []*node, c *ntCand) {
 	}
 }
 
+// ------------------------------------------ context after a reorganisation
+//
+// "re-anchor -> validate with the store fall-back -> reorganise -> re-anchor -> a header whose
+// validity depends on the ancestors at the reorganised heights".  While the in-memory list holds
+// only the tip, the context handed to btcd (median-time-past, retarget look-back, min-difficulty
+// walk) reads every ancestor below the tip from the STORE; after a reorganisation the store holds
+// other headers at those heights.  A validator that resolves an ancestor through anything that
+// still remembers the abandoned branch judges such a header in a context that is not its own.
+
+// staleCtx is node n seen by a validator that still resolves the heights lo < h <= hi through the
+// abandoned chain `old` (n itself excepted); everything else is n's own branch.  Used only to
+// CHOOSE timestamps / bits that tell the two contexts apart; the table records btcd's verdict on
+// the header's own branch.
+type staleCtx struct {
+	n      *node
+	old    []*node
+	lo, hi int32
+}
+
+func (c staleCtx) Height() int32                { return c.n.height }
+func (c staleCtx) Bits() uint32                 { return c.n.hdr.Bits }
+func (c staleCtx) Timestamp() int64             { return c.n.hdr.Timestamp.Unix() }
+func (c staleCtx) Parent() blockchain.HeaderCtx { return c.RelativeAncestorCtx(1) }
+func (c staleCtx) RelativeAncestorCtx(d int32) blockchain.HeaderCtx {
+	if d == 0 {
+		return c
+	}
+	h := c.n.height - d
+	if h < 0 {
+		return nil
+	}
+	if h > c.lo && h <= c.hi && int(h) < len(c.old) {
+		return staleCtx{c.old[h], c.old, c.lo, c.hi}
+	}
+	a := c.n
+	for a != nil && a.height > h {
+		a = a.parent
+	}
+	if a == nil {
+		return nil
+	}
+	return staleCtx{a, c.old, c.lo, c.hi}
+}
+
+// stCand: a context-sensitive header offered on top of (a node of) the adopted branch.
+type stCand struct {
+	n     *node
+	tail  *node  // a plain valid child of n (sent along when n is offered as a fork)
+	sense string // what it tells apart (evidence only)
+	tells bool   // its verdict differs between its own context and the stale one
+}
+
+type stScript struct {
+	T      int        // the main chain is synced up to this height first
+	ext    *node      // main[T+1]: validated through the store fall-back before the reorganisation (may be nil)
+	vBad   *node      // a child of main[T] at or below its median-time-past (must be refused)
+	branch []*node    // the competing branch, forking at main[f]
+	f      int        // fork height
+	levels [][]stCand // [0]: children of the branch tip; [i+1]: children of the valid candidate of level i
+	forkC  []stCand   // children of the branch tip's parent (offered as two-header forks)
+}
+
+// stCands makes the context-sensitive children of P, which sits on a branch that displaced
+// old[f+1 ..].
+func (w *world) stCands(t *tr.W, P *node, old []*node, f int) []stCand {
+	rng := w.rng
+	sc := staleCtx{P, old, int32(f), int32(len(old) - 1)}
+	mo := w.mtp(P)
+	ms := blockchain.CalcPastMedianTime(sc).Unix()
+	var out []stCand
+	add := func(ts int64, kind, sense string, bits uint32) {
+		n := w.mineBits(P, ts, kind, bits)
+		// (the child of an invalid header abides by the rules itself)
+		c := stCand{n: n, tail: w.mine(n, w.nextTs(n, 0), "ok"), sense: sense, tells: strings.Contains(sense, "if-stale")}
+		out = append(out, c)
+		t.Hit("restale.cand." + sense)
+	}
+	pick := func(lo, hi int64, nearHi bool) int64 { // a timestamp in [lo, hi], mostly the end next to the own median
+		if lo >= hi || rng.Intn(3) > 0 {
+			if nearHi {
+				return hi
+			}
+			return lo
+		}
+		return lo + rng.Int63n(hi-lo+1)
+	}
+	switch {
+	case ms < mo:
+		// the abandoned chain's timestamps lie behind: a header at or below its own median-time-past
+		// passes in the stale context
+		add(mo, "stale", "invalid-own.valid-if-stale.mtp", 0)
+		add(pick(ms+1, mo, true), "stale", "invalid-own.valid-if-stale.mtp", 0)
+		add(mo+1, "ok", "valid-own.first-second-after-mtp", 0)
+	case ms > mo:
+		// the abandoned chain's timestamps lie ahead: a valid header right after its own
+		// median-time-past is "too old" in the stale context
+		add(pick(mo+1, ms, false), "ok", "valid-own.invalid-if-stale.mtp", 0)
+		add(mo-int64(rng.Intn(2)), "stale", "invalid-own.at-mtp", 0)
+	default:
+		t.Hit("restale.cand.mtp-same-in-both-contexts")
+		add(mo+1, "ok", "valid-own.first-second-after-mtp", 0)
+		add(mo, "stale", "invalid-own.at-mtp", 0)
+	}
+	// the difficulty the stale context would require (retarget look-back / min-difficulty walk through
+	// the abandoned chain)
+	ts := P.hdr.Timestamp.Unix() + 600
+	if ts <= mo {
+		ts = mo + 1
+	}
+	if ob, sb := w.requiredBits(P, time.Unix(ts, 0)), w.requiredBitsCtx(sc, time.Unix(ts, 0)); ob != sb && ts > ms {
+		add(ts, "ok", "valid-own.invalid-if-stale.bits", 0)
+		add(ts, "stale", "invalid-own.valid-if-stale.bits", sb)
+	}
+	return out
+}
+
+func (w *world) buildStale(t *tr.W) *stScript {
+	rng := w.rng
+	sc := &stScript{}
+	gen := w.nodes[0]
+	sc.T = 12 + rng.Intn(6)
+	style := []int{0, 0, 3}[rng.Intn(3)]
+	w.main = append([]*node{gen}, w.extend(gen, sc.T, style)...)
+	tipM := w.main[sc.T]
+	if rng.Intn(6) > 0 {
+		ts := w.nextTs(tipM, style)
+		if rng.Intn(3) == 0 {
+			ts = w.mtp(tipM) + 1 // the first second a child may carry
+		}
+		sc.ext = w.mine(tipM, ts, "ok")
+		w.main = append(w.main, sc.ext)
+	}
+	sc.vBad = w.mine(tipM, w.mtp(tipM)-int64(rng.Intn(2)), "mtp")
+	// the competing branch: its timestamps run ahead of the main chain's or lag behind them
+	sc.f = sc.T - 2 - rng.Intn(8)
+	late := rng.Intn(2) == 0
+	if late {
+		t.Hit("restale.branch.timestamps-ahead")
+	} else {
+		t.Hit("restale.branch.timestamps-behind")
+	}
+	disp := new(big.Int)
+	for _, n := range w.main[sc.f+1:] {
+		disp.Add(disp, n.work)
+	}
+	cur := w.main[sc.f]
+	bw := new(big.Int)
+	for k := 0; k < 40 && (bw.Cmp(disp) <= 0 || k < len(w.main)-sc.f+rng.Intn(2)); k++ {
+		var ts int64
+		if late {
+			ts = cur.hdr.Timestamp.Unix() + int64(1500+rng.Intn(1000))
+			if w.params.ReduceMinDifficulty && rng.Intn(2) == 0 {
+				ts = cur.hdr.Timestamp.Unix() + int64(900+rng.Intn(290)) // stay below the 20-minute rule
+			}
+		} else {
+			ts = w.mtp(cur) + 1 + int64(rng.Intn(20))
+		}
+		cur = w.mine(cur, ts, "ok")
+		sc.branch = append(sc.branch, cur)
+		bw.Add(bw, cur.work)
+	}
+	old := w.main
+	tipB := cur
+	if len(sc.branch) >= 2 {
+		sc.forkC = w.stCands(t, tipB.parent, old, sc.f)
+	}
+	for P, lv := tipB, 0; P != nil && lv < 3; lv++ {
+		cs := w.stCands(t, P, old, sc.f)
+		sc.levels = append(sc.levels, cs)
+		P = nil
+		for _, c := range cs {
+			if c.n.kind == "ok" {
+				P = c.n
+				break
+			}
+		}
+	}
+	var maxTs int64
+	for _, n := range w.nodes {
+		maxTs = max(maxTs, n.hdr.Timestamp.Unix())
+	}
+	w.ts.now = time.Unix(maxTs+3600, 0)
+	t.Hit("checkpoints.0")
+	t.Hit("time.all-fresh")
+	w.judge()
+	return sc
+}
+
 func allOk(n *node) bool {
 	for ; n != nil; n = n.parent {
 		if n.kind != "ok" {
@@ -1404,9 +1592,15 @@ func runCase(t *tr.W, rng *rand.Rand, nev int, script string) {
 	if script == "neartie" {
 		ps = []int{1, 2, 2, 3, 5, 5}[rng.Intn(6)] // a retarget every 4 or 8 blocks, with and without the min-difficulty rule
 	}
+	if script == "restale" {
+		ps = []int{0, 4, 4, 1, 2, 3, 5}[rng.Intn(7)]
+	}
 	w := newWorld(rng, ps)
 	var nearTie []*ntRound
+	var stale *stScript
 	switch script {
+	case "restale":
+		stale = w.buildStale(t)
 	case "long":
 		w.buildLong(t)
 	case "neartie":
@@ -1416,6 +1610,9 @@ func runCase(t *tr.W, rng *rand.Rand, nev int, script string) {
 	}
 	t.Hit(fmt.Sprintf("params.%d", ps))
 	npeers := 3
+	if script == "restale" {
+		npeers = 12 // every lost sync peer is replaced by a new one
+	}
 	s, err := newSys(w, npeers, rng)
 	if err != nil {
 		panic(err)
@@ -1627,6 +1824,181 @@ func runCase(t *tr.W, rng *rand.Rand, nev int, script string) {
 		cfwrite()
 		backlog()
 		headers(2, w.long[len(w.long)-3:], "known")
+		return
+	}
+	if script == "restale" {
+		t.Hit("script.restale")
+		nextPeer := 1
+		syncNew := func() { // a new peer that becomes the sync peer if there is none
+			if nextPeer > npeers {
+				return
+			}
+			peerheight(nextPeer, len(s.stored)-1+rng.Intn(3))
+			newpeer(nextPeer)
+			nextPeer++
+		}
+		sender := func() int {
+			if sp := s.peerID(s.bm.Digest().SyncPeer); sp != 0 {
+				return sp
+			}
+			return 1 + rng.Intn(npeers)
+		}
+		// reanchor: an event after which the in-memory list holds the stored tip only
+		raKinds := []string{"donepeer", "reset", "failwrite"}
+		rng.Shuffle(3, func(i, j int) { raKinds[i], raKinds[j] = raKinds[j], raKinds[i] })
+		raNext := 0
+		reanchor := func(where, k string) { // k == "": the three ways in turn, now and then none
+			if k == "" {
+				k = raKinds[raNext%3]
+				raNext++
+				if rng.Intn(7) == 0 {
+					k = "none"
+				}
+			}
+			switch k {
+			case "donepeer":
+				sp := s.peerID(s.bm.Digest().SyncPeer)
+				if sp == 0 {
+					t.Hit("restale." + where + ".none")
+					return
+				}
+				t.Hit("restale." + where + ".sync-peer-lost")
+				t.Hit("ev.donepeer")
+				s.active[sp-1] = false
+				r := guard(func() { s.bm.DonePeer(s.peers[sp-1]) })
+				t.Op(fmt.Sprintf("donepeer %d", sp), s.dump(r, 0, "[]"))
+				syncNew()
+			case "reset":
+				t.Hit("restale." + where + ".reset-header-state")
+				t.Hit("ev.importreset")
+				res := "ok"
+				r := guard(func() {
+					if err := s.bm.ResetHeaderState(); err != nil {
+						res = "err"
+					}
+				})
+				if r != "ok" {
+					res = r
+				}
+				t.Op("importreset [] 0", s.dump(res, 0, "[]"))
+			case "failwrite":
+				// a valid child of the stored tip whose batch write fails
+				tp := tip()
+				var ok []*node
+				for _, c := range tp.children {
+					if c.valid {
+						ok = append(ok, c)
+					}
+				}
+				if len(ok) == 0 || s.back != tp {
+					t.Hit("restale." + where + ".none")
+					return
+				}
+				t.Hit("restale." + where + ".failed-batch-write")
+				t.Hit("ev.headers.failwrite")
+				c := ok[rng.Intn(len(ok))]
+				p := sender()
+				s.fs.failWrite = 1
+				r := guard(func() { s.bm.Headers(s.peers[p-1], []*wire.BlockHeader{c.hdr}) })
+				s.fs.failWrite = 0
+				t.Op(fmt.Sprintf("headersfw %d %s", p, ids([]*node{c})), s.dump(r, 0, "[]"))
+			default:
+				t.Hit("restale." + where + ".none")
+			}
+		}
+		// offer: the candidates of one level, each after a re-anchoring; the one that tells the
+		// contexts apart comes first, right after the re-anchoring `first`.  Returns the candidate
+		// that got stored.
+		offer := func(cs []stCand, asFork bool, shape, first string) *node {
+			ord := rng.Perm(len(cs))
+			sort.SliceStable(ord, func(i, j int) bool { return cs[ord[i]].tells && !cs[ord[j]].tells })
+			for k, i := range ord {
+				c := cs[i]
+				if s.stuck || !s.onStored(c.n.parent) || !asFork && c.n.parent != tip() {
+					continue
+				}
+				if k == 0 {
+					reanchor("before-candidate", first)
+				} else {
+					reanchor("before-candidate", "")
+				}
+				b := []*node{c.n}
+				if asFork || rng.Intn(4) == 0 {
+					b = append(b, c.tail)
+				}
+				headers(sender(), b, shape+"."+c.n.kind)
+				if s.onStored(c.n) && c.n.valid {
+					return c.n
+				}
+			}
+			return nil
+		}
+		sc := stale
+		syncNew()
+		k := 1 + rng.Intn(sc.T)
+		headers(1, w.main[1:1+k], "main")
+		headers(1, w.main[1+k:sc.T+1], "main")
+		if rng.Intn(3) == 0 {
+			cfwrite()
+			cfwrite()
+		}
+		// the list is cut down to the tip, then something is validated through the store
+		reanchor("before-validation", raKinds[rng.Intn(3)])
+		switch rng.Intn(6) {
+		case 0:
+			headers(sender(), []*node{sc.vBad}, "restale-main-child.mtp")
+			if sc.ext != nil {
+				headers(sender(), []*node{sc.ext}, "restale-main-child.ok")
+			}
+		case 1:
+			if sc.ext != nil {
+				headers(sender(), []*node{sc.ext}, "restale-main-child.ok")
+			}
+			headers(sender(), []*node{sc.vBad}, "restale-main-child.mtp")
+		case 2:
+			// a prefix of the competing branch that is not heavier yet (validated in the reorg arm, refused)
+			n := 1 + rng.Intn(max(1, min(len(sc.branch)-1, sc.T-sc.f)))
+			headers(sender(), sc.branch[:n], "restale-branch-prefix")
+			if sc.ext != nil && rng.Intn(2) == 0 {
+				headers(sender(), []*node{sc.ext}, "restale-main-child.ok")
+			}
+		default:
+			if sc.ext != nil {
+				headers(sender(), []*node{sc.ext}, "restale-main-child.ok")
+			}
+		}
+		if rng.Intn(4) == 0 {
+			reanchor("before-reorg", "")
+		}
+		// the reorganisation
+		b := sc.branch
+		if rng.Intn(4) == 0 {
+			b = append([]*node{w.main[sc.f]}, b...)
+		}
+		headers(sender(), b, "restale-reorg")
+		if tip() != sc.branch[len(sc.branch)-1] {
+			t.Hit("restale.reorg-not-adopted")
+			return
+		}
+		if rng.Intn(4) == 0 {
+			backlog()
+		}
+		// re-anchored again in this case's way (or not at all: then the candidates come as forks
+		// below the tip), then the headers whose context lies at the reorganised heights
+		way := []string{"donepeer", "donepeer", "reset", "failwrite", "fork"}[rng.Intn(5)]
+		t.Hit("restale.way." + way)
+		if way == "fork" {
+			if len(sc.forkC) > 0 {
+				offer(sc.forkC, true, "restale-fork", "none")
+			}
+			return
+		}
+		for lv, cs := range sc.levels {
+			t.Hit(fmt.Sprintf("restale.offer.level-%d", lv))
+			if got := offer(cs, false, "restale-child", way); got == nil || lv+1 < len(sc.levels) && got != sc.levels[lv+1][0].n.parent {
+				break
+			}
+		}
 		return
 	}
 	if script == "neartie" {
@@ -2236,6 +2608,7 @@ func Run(t *tr.W, thorough bool) {
 		ncases = 3 * 120 // the search after a broken tie: three times the quick run
 	}
 	rngNT := tr.Rng(7102) // the near-tie cases draw from a stream of their own
+	rngST := tr.Rng(7103)
 	for i := 0; i < ncases; i++ {
 		runCase(t, rng, 18+rng.Intn(30), "")
 		if i == ncases/3 || i == 2*ncases/3 {
@@ -2243,6 +2616,9 @@ func Run(t *tr.W, thorough bool) {
 		}
 		if i%10 == 5 {
 			runCase(t, rngNT, 0, "neartie") // a dozen near-tie cases per quick run
+		}
+		if i%5 == 3 {
+			runCase(t, rngST, 0, "restale") // and two dozen histories that re-anchor around a reorganisation
 		}
 	}
 }
